@@ -2,7 +2,8 @@
 from __future__ import annotations
 
 from sa.report import Cx
-from sa.terms import Sym, Attr, Fresh, f_and, f_or, implies, atoms_of
+from sa.walker import WalkOptions
+from sa.terms import Sym, Attr, Sub, App, Fresh, AIs, f_and, f_or, implies, atoms_of
 from .common import CORE, scheduler_paths, exec_sites, classify_iterable, queue_term, strip_versions
 from .c02 import registered_atom_kind, guard_of_sites
 
@@ -180,6 +181,31 @@ def run(cx: Cx):
     else:
         cx.ok('R-ITER', f"the scheduler loop is left early only when the model is no longer running ({n_exits} early exits examined)",
               where=cx.where(fn), function=fn.qualname)
+    cu2 = cx.prog.functions.get(CORE + 'System.clean_up')
+    if cu2 is not None:
+        me = Sym(cu2.params[0])
+        reg = Attr(Attr(Attr(me, 'model'), 'systems'), 'systems')
+        badp = None
+        for p in cx.walker.paths(cu2, WalkOptions(unroll=1, callee_raises=False)):
+            if p.end == 'raise':
+                continue
+            rm = [e for e in p.events if e.kind == 'call' and any(t.qualname == CORE + 'SystemManager.remove_system' for t in e.data.get('targets', []))
+                  and e.data.get('args') == (Attr(me, 'id'),)]
+            if rm:
+                continue
+            # not removing is only right when the registry itself says that the id now belongs to another object
+            via_registry = any(isinstance(a, AIs) and any(strip_versions(getattr(t, 'base', None) if isinstance(t, Sub) else
+                                                                      (t.args[0] if isinstance(t, App) and t.fn == '.get' and t.args else None)) == reg
+                                                        for t in (a.a, a.b)) for a in atoms_of(p.cond))
+            if not via_registry:
+                badp = p
+        if badp is not None:
+            cx.violation('R-PAIR', cu2.qualname, 'clean_up-removes-the-system',
+                         f"System.clean_up returns without calling remove_system(self.id) on a path [{badp.cond!r}] that has not established, "
+                         f"from the registry itself, that another object holds the id: the retired system stays queued and keeps running",
+                         where=cx.where(cu2))
+        else:
+            cx.ok('R-PAIR', 'System.clean_up removes the system from its scheduler', where=cx.where(cu2), function=cu2.qualname)
     # one execute per iteration
     for p in ps:
         per = {}
